@@ -290,10 +290,38 @@ Bin(op, a, b) ==
     [] op = "or" -> WithJ(VB(ToBool(a) \/ ToBool(b)), j)
 NegV(a) == WithJ(VN(Neg(ToNum(a))), a.j)
 
+\* ---- re-match(subject, pattern) of RFC 7950 10.2.1: TRUE iff the WHOLE subject matches the XSD regular
+\* expression.  Modelled on the subset where XSD and RE2 agree and that needs no escapes: literal
+\* characters, '.', the postfix quantifiers * + ?, and alternation '|' at top level.  Other patterns: not judged.
+RxMeta == {".", "*", "+", "?", "|", "(", ")", "[", "]", "{", "}", "\\", "^", "$"}
+RECURSIVE RxSplit(_, _, _)          \* split at top-level '|'
+RxSplit(p, i, acc) == IF i > Len(p) THEN <<acc>>
+                      ELSE IF Ch(p, i) = "|" THEN <<acc>> \o RxSplit(p, i + 1, "")
+                      ELSE RxSplit(p, i + 1, acc \o Ch(p, i))
+RECURSIVE RxItems(_, _)             \* a branch as a sequence of [c, q]
+RxItems(b, i) == IF i > Len(b) THEN << >>
+                 ELSE LET q == IF i < Len(b) /\ Ch(b, i + 1) \in {"*", "+", "?"} THEN Ch(b, i + 1) ELSE "1"
+                      IN <<[c |-> Ch(b, i), q |-> q]>> \o RxItems(b, IF q = "1" THEN i + 1 ELSE i + 2)
+RxBranchOk(b) == \A i \in 1..Len(b) :
+                    LET c == Ch(b, i) IN
+                    IF c \in {"*", "+", "?"} THEN i > 1 /\ Ch(b, i - 1) \notin {"*", "+", "?"}
+                    ELSE c = "." \/ c \notin RxMeta
+RxInSubset(p) == \A k \in 1..Len(RxSplit(p, 1, "")) : RxBranchOk(RxSplit(p, 1, "")[k])
+RxCh(it, c) == it.c = "." \/ it.c = c
+RECURSIVE RxMatch(_, _, _, _)       \* does s[i..] match items[k..] entirely
+RxMatch(s, i, its, k) ==
+  IF k > Len(its) THEN i > Len(s)
+  ELSE LET it == its[k]  here == i <= Len(s) /\ RxCh(it, Ch(s, i)) IN
+       CASE it.q = "1" -> here /\ RxMatch(s, i + 1, its, k + 1)
+         [] it.q = "?" -> RxMatch(s, i, its, k + 1) \/ (here /\ RxMatch(s, i + 1, its, k + 1))
+         [] it.q = "*" -> RxMatch(s, i, its, k + 1) \/ (here /\ RxMatch(s, i + 1, its, k))
+         [] it.q = "+" -> here /\ (RxMatch(s, i + 1, its, k + 1) \/ RxMatch(s, i + 1, its, k))
+ReMatch(s, p) == \E k \in 1..Len(RxSplit(p, 1, "")) : RxMatch(s, 1, RxItems(RxSplit(p, 1, "")[k], 1), 1)
+
 \* core function library (declared arities of this implementation)
 F0 == {"true", "false", "last", "position"}
 F1 == {"string", "number", "boolean", "not", "floor", "ceiling", "round", "string-length", "normalize-space"}
-F2 == {"concat", "contains", "starts-with", "substring-before", "substring-after"}
+F2 == {"concat", "contains", "starts-with", "substring-before", "substring-after", "re-match"}
 F3 == {"substring", "translate"}
 Fn0(f) == CASE f = "true" -> VB(TRUE) [] f = "false" -> VB(FALSE)
             [] f = "last" -> VN(Num(1)) [] f = "position" -> VN(Num(1))   \* top-level context: size 1, position 1
@@ -314,6 +342,7 @@ Fn2(f, a, b) ==
     [] f = "contains" -> WithJ(VB(y = "" \/ Find(x, y) > 0), j)
     [] f = "starts-with" -> WithJ(VB(Len(y) <= Len(x) /\ SubSeq(x, 1, Len(y)) = y), j)
     [] f = "substring-before" -> WithJ(VS(IF y = "" THEN "" ELSE LET i == Find(x, y) IN IF i = 0 THEN "" ELSE SubSeq(x, 1, i - 1)), j)
+    [] f = "re-match" -> WithJ(VB(RxInSubset(y) /\ ReMatch(x, y)), j /\ RxInSubset(y))
     [] f = "substring-after" -> WithJ(VS(IF y = "" THEN x ELSE LET i == Find(x, y) IN IF i = 0 THEN "" ELSE SubSeq(x, i + Len(y), Len(x))), j)
 Fn3(f, a, b, c) ==
   LET j == a.j /\ b.j /\ c.j IN
